@@ -244,7 +244,10 @@ func (f *Frame) checkPost(vs []Val, pos token.Pos) {
 	for ci, c := range vc.contract.Ensures {
 		for ji, cj := range conjuncts(c.Expr) {
 			g := env.evalBool(cj)
-			f.oblige(fmt.Sprintf("post:%d.%d", ci, ji), g, "ensures "+exprText(cj), pos, c.Tags, true)
+			if ob := f.oblige(fmt.Sprintf("post:%d.%d", ci, ji), g, "ensures "+exprText(cj), pos, c.Tags, true); ob != nil {
+				ob.Clause = cj
+				ob.ClausePkg = vc.contract.Pkg
+			}
 		}
 	}
 }
